@@ -40,6 +40,15 @@ def _call(assigns, lag, n, sliding):
     if n is not None:
         n = (n, np.int64(n))[k % 2]
     C = assigns_to_counts(assigns, lag, max_n_states=n, sliding_window=sliding)
+    if k % 2:
+        # a caller may do what it likes to a matrix it was handed (weight it in place, zero it): the next count of the
+        # same data must not know
+        try:
+            C *= 3
+            C.data[:] = 0
+        except Exception:
+            pass
+        C = assigns_to_counts(assigns, lag, max_n_states=n, sliding_window=sliding)
     return np.asarray(C.toarray())
 
 
